@@ -3,7 +3,7 @@
 From Coq Require Import List ZArith Bool String Lia.
 Import ListNotations.
 Require Import Nib.C08.Model.
-Open Scope Z_scope.
+Local Open Scope Z_scope.
 
 (** call kinds for which geth itself marks the precompile call read-only *)
 Definition direct_ro (k : kind) : bool :=
